@@ -37,7 +37,7 @@ type EvalCtx struct {
 }
 
 func (f *Frame) evalCtx(st *State, reach string) *EvalCtx {
-	ev := &EvalCtx{c: f.c, pkg: f.fn.Pkg.Pkg.Name(), st: st, old: f.entry, vars: map[string]SVal{}, frame: f, reach: reach}
+	ev := &EvalCtx{c: f.c, pkg: f.fn.Pkg.Pkg.Name(), st: st, old: f.topFrame().entry, vars: map[string]SVal{}, frame: f, reach: reach}
 	return ev
 }
 
@@ -158,7 +158,20 @@ func charVal(s string) (int, error) {
 }
 
 func (ev *EvalCtx) lookupLocal(name string) (SVal, bool, error) {
-	f := ev.frame
+	// an inlined loop-carrying callee sees its own locals first, then those of its callers
+	for f := ev.frame; f != nil; f = f.up {
+		v, found, err := ev.lookupLocalIn(f, name)
+		if found && (err == nil || f.up == nil) {
+			return v, found, err
+		}
+		if f.up == nil {
+			return v, found, err
+		}
+	}
+	return SVal{}, false, nil
+}
+
+func (ev *EvalCtx) lookupLocalIn(f *Frame, name string) (SVal, bool, error) {
 	if f == nil {
 		return SVal{}, false, nil
 	}
@@ -674,7 +687,7 @@ func (ev *EvalCtx) evalCall(e *Expr) (SVal, error) {
 			for k, v := range ev.vars {
 				n.vars[k] = v
 			}
-			for k, v := range ev.frame.params {
+			for k, v := range ev.frame.topFrame().params {
 				if _, bound := n.vars[k]; !bound {
 					n.vars[k] = SVal{T: v.T, S: v.S, GT: v.GT}
 				}
